@@ -2,6 +2,7 @@ import CV.Model.Wake
 import CV.Model.WakeSpec
 import CV.Proofs.EvQueue
 import CV.Proofs.Wake
+import CV.Proofs.WakeTimer
 /-
 C03 - fire() from other threads: nothing lost or duplicated, loop always wakes.
 
@@ -12,6 +13,12 @@ free).  `Reach s` = `s` is reachable from the state after `run()` fired `started
 sequence of effects, i.e. under every interleaving; nothing bounds the number of ticks, firers
 or events.  Time-outs of the idle wait are transitions of the model (`timeout`, `selTimeout`),
 so "without needing any time-out" is a statement about the *other* transitions.
+
+The machine includes the Timer's part of the protocol: any number of `generate_events` handlers without
+`resume` (circuits.core.timers.Timer._on_generate_events) run in the loop thread before the waiter and call
+`event.reduce_time_left(T)`, T > 0 (`hsetWnoResume`, `lAcq`, `tlwOther`, `lRel`; program points `tAcq`, `tChk`,
+`tRel`), interleaved with foreign `fire()` calls at every line.  All theorems below are about that machine;
+the last section is about these steps in particular.
 -/
 namespace CV.C03
 open CV.Wake
@@ -107,7 +114,7 @@ theorem firer_delivers_wake {s : St} (h : Reach s) (hb : s.blocked = true) (hq :
 theorem never_blocks_with_queued {s s' : St} {l : Lab} (h : Reach s) (hc : s.cs = none)
     (hq : s.q.pending ≠ []) (hl : l.isFirer = false) (hs : step s l = some s')
     (hnb : s.blocked = false) : s'.blocked = false := by
-  obtain ⟨h1, h2, h3, h4, h5, h6, h7, h8⟩ := reach_winv h
+  obtain ⟨h1, h2, h3, h4, h5, h6, h7, h8, h9⟩ := reach_winv h
   unfold step at hs
   cases l <;> simp only [Lab.isFirer, if_false, Bool.false_eq_true] at hs hl <;>
   simp only [stepLoop] at hs <;>
@@ -154,6 +161,124 @@ theorem dispatched_prefix_of_fired {s : St} (h : Reach s) (t : Nat) :
   refine ⟨s.q.pending.filter (fun e => e.tid == t), ?_⟩
   rw [← exactly_once_fifo h t, List.filter_append]
 
+/-! ### the Timer's part of the protocol -/
+
+/-- **No reachable state is stuck.**  The state seed C03-d produces (loop in its idle wait with a non-zero
+    time-out, event queued, every `fire()` returned, wake signal unset) is unreachable. -/
+theorem no_stuck_state {s : St} (h : Reach s) :
+    ¬ (s.blocked = true ∧ s.q.pending ≠ [] ∧ s.cs = none ∧ s.sig = 0) := by
+  rintro ⟨hb, hq, hc, hz⟩
+  have := (wake_without_timeout h hb hq hc).1
+  omega
+
+/-- **Zero stays zero.**  Once the time left of the current generate_events is 0 (a wake-up was delivered
+    or is pending), no effect of any thread - in particular no `reduce_time_left(T)`, T > 0, of a Timer -
+    changes it, until `tick()` creates the next generate_events. -/
+theorem zero_stays_zero {s s' : St} {ls : List Lab} (hr : run s ls = some s')
+    (hl : ∀ l ∈ ls, l.isAppGe = false) (hz : s.tl = .zero) : s'.tl = .zero :=
+  run_zero_stays hr hl hz
+
+/-- **A Timer lowering the time left to T > 0 never cancels a wake-up already delivered or pending.**
+    While the loop thread is inside a Timer's handler (after `event.handler = <Timer handler>`, inside
+    `reduce_time_left(T)`), whatever happens next (a step of the loop thread or of a firer):
+    a time left of 0 stays 0, the wake signal is not consumed, and if the step is the Timer's write
+    `self._time_left = T` then the time left was not 0, no event is queued, no firer is inside its
+    critical section, and queue and signal are untouched. -/
+theorem timer_lowering_keeps_wake {s s' : St} {l : Lab} (h : Reach s) (hp : s.lpc.inTimer = true)
+    (hs : step s l = some s') :
+    (s.tl = .zero → s'.tl = .zero) ∧ s.sig ≤ s'.sig ∧
+    (l = .tlwOther → s.tl ≠ .zero ∧ s.q.pending = [] ∧ s.cs = none ∧ s'.q = s.q ∧ s'.sig = s.sig ∧
+      s'.tl = .pos) := by
+  have w := reach_winv h
+  refine ⟨?_, step_timer_sig hs hp, ?_⟩
+  · intro hz
+    refine step_zero_stays hs ?_ hz
+    cases l <;> try rfl
+    simp only [step, Lab.isFirer, stepLoop, Bool.false_eq_true, if_false] at hs
+    split at hs
+    · rename_i hc; rw [hc.1] at hp; cases hp
+    · cases hs
+  · rintro rfl
+    simp only [step, Lab.isFirer, stepLoop, Bool.false_eq_true, if_false] at hs
+    split at hs
+    · rename_i hc
+      injection hs with hs; subst hs
+      have hlk : s.lockL = true := by rw [w.lock, hc.1]; rfl
+      have hcs := w.mutex hlk
+      refine ⟨hc.2, ?_, hcs, rfl, rfl, rfl⟩
+      apply Classical.byContradiction
+      intro hq
+      rcases w.k1 (by rw [hc.1]; rfl) hq with h0 | ⟨f, hf, _⟩
+      · exact hc.2 h0
+      · rw [hcs] at hf; cases hf
+    · cases hs
+
+/-- **From a queued event to its dispatch the loop never goes to sleep.**  An event is queued, no firer is
+    inside its critical section, the loop thread is not in an idle wait: then whatever the loop thread
+    does (Timer handlers lowering the time left included) up to the next dispatch (`pop`), it never enters
+    an idle wait, and the event stays queued. -/
+theorem never_blocks_until_dispatch {s s' : St} {ls : List Lab} (h : Reach s) (hc : s.cs = none)
+    (hq : s.q.pending ≠ []) (hnb : s.blocked = false)
+    (hl : ∀ l ∈ ls, l.isFirer = false ∧ l.isPop = false) (hr : run s ls = some s') :
+    s'.blocked = false ∧ s'.q.pending ≠ [] ∧ s'.cs = none := by
+  induction ls generalizing s with
+  | nil => simp [run] at hr; subst hr; exact ⟨hnb, hq, hc⟩
+  | cons l ls ih =>
+    simp only [run] at hr
+    split at hr
+    · rename_i s1 hs1
+      have hl1 := hl l (List.mem_cons_self ..)
+      have hloop : stepLoop s l = some s1 := by
+        have := hs1; unfold step at this; rw [hl1.1] at this; simpa using this
+      exact ih (Reach.step h hs1) (loop_step_cs hloop hc) (loop_step_pending hloop hl1.2 hq)
+        (never_blocks_with_queued h hc hq hl1.1 hs1 hnb)
+        (fun l' hl' => hl l' (List.mem_cons_of_mem _ hl')) hr
+    · cases hr
+
+/-- **`reduce_time_left(T > 0)` never lets the loop sleep on a queued event.**  The loop thread is anywhere
+    inside a Timer's handler, an event is queued and its `fire()` has returned: then the time left is 0
+    already, the Timer's write `self._time_left = T` is not enabled (the locked test fails), and the rest
+    of the iteration - the remaining Timer handlers, the waiter, the start of the next tick up to the
+    dispatch of the event - never enters an idle wait; wherever it stops after a generate_events was
+    armed (`checked`: the rest of this iteration, or the next one), the time left it finds is 0, not T. -/
+theorem rtl_positive_never_blocks_with_queued {s s' : St} {ls : List Lab} (h : Reach s)
+    (hp : s.lpc.inTimer = true) (hc : s.cs = none) (hq : s.q.pending ≠ [])
+    (hl : ∀ l ∈ ls, l.isFirer = false ∧ l.isPop = false) (hr : run s ls = some s') :
+    s.tl = .zero ∧ step s .tlwOther = none ∧ (s'.lpc.checked = true → s'.tl = .zero) ∧
+      s'.blocked = false ∧ s'.q.pending ≠ [] := by
+  have w := reach_winv h
+  have hnb : s.blocked = false := by
+    cases hlp : s.lpc <;> simp_all [LPc.inTimer, St.blocked]
+  have hz : s.tl = .zero := by
+    rcases w.k1 (by cases hlp : s.lpc <;> simp_all [LPc.inTimer, LPc.checked]) hq with h0 | ⟨f, hf, _⟩
+    · exact h0
+    · rw [hc] at hf; cases hf
+  obtain ⟨h1, h2, h3⟩ := never_blocks_until_dispatch h hc hq hnb hl hr
+  refine ⟨hz, by simp [step, Lab.isFirer, stepLoop, hz], ?_, h1, h2⟩
+  intro hck
+  rcases (reach_winv (reach_of_run h hr)).k1 hck h2 with h0 | ⟨f, hf, _⟩
+  · exact h0
+  · rw [h3] at hf; cases hf
+
+/-- **Seed C03-d (negative lemma).**  With the test of `reduce_time_left` moved out of the lock the stuck
+    state IS reachable: the Timer handler tests (time left < 0: "there is work"), a foreign `fire()` runs
+    completely (lowers the time left to 0, finds no `resume`), the Timer handler writes T > 0 under the
+    lock, the waiter waits for T with the event queued and no signal. -/
+theorem c03d_unlocked_test_witness :
+    (runD ⟨init .fallback, false⟩ (mutPrefix ++ mutFire ++ mutRest)).any
+      (fun m => m.s.blocked && !m.s.q.pending.isEmpty && m.s.cs.isNone && m.s.sig == 0) = true := by
+  decide
+
+/-- ... while the real protocol refuses exactly the Timer's write of that run (the locked test sees 0) and
+    continues into a wait with time-out 0 -/
+theorem c03d_locked_test_refuses :
+    (run (init .fallback) (mutPrefix ++ mutFire ++ [.lAcq])).any
+      (fun s => (step s .tlwOther).isNone && (step s .lRel).isSome) = true ∧
+    (run (init .fallback) (mutPrefix ++ mutFire ++
+      [.lAcq, .lRel, .hsetW, .lAcq, .tlr .zero, .clr, .lRel, .tlr .zero, .tlr .zero])).any
+      (fun s => !s.blocked && s.lpc == .done) = true := by
+  decide
+
 /-! ### non-vacuity -/
 
 /-- a run of the fallback variant: first tick, loop goes to sleep, firer 1 appends its event -/
@@ -186,5 +311,48 @@ example : (run (init .fallback) (exLabels ++ exFinish ++
      .pop 0 2])).any
     (fun s => s.q.pending.isEmpty && (s.q.log.map key == [(0, 0), (0, 1), (1, 0), (2, 0), (0, 2)])) = true := by
   decide
+
+/-! ### non-vacuity of the Timer theorems (`mutPrefix`, `mutFire`: CV/Proofs/WakeTimer.lean) -/
+
+/-- the rest of the iteration and the start of the next tick, as the loop thread runs it after a foreign
+    `fire()` completed while it was at the first line of the Timer's `reduce_time_left(T)` -/
+def exAfterFire : List Lab :=
+  [.lAcq, .lRel, .hsetW, .lAcq, .tlr .zero, .clr, .lRel, .tlr .zero, .tlr .zero, .hwNone,
+   .lIncr, .lAppGe 2 .pos, .snap 2]
+
+/-- `timer_lowering_keeps_wake`: the Timer's write is enabled inside the handler (nothing queued) ... -/
+example : (run (init .fallback) (mutPrefix ++ [.lAcq])).any
+    (fun s => s.lpc.inTimer && (step s .tlwOther).isSome && s.tl == .neg) = true := by decide
+
+/-- ... a second Timer's write is enabled from a positive time left as well (and may also be skipped) ... -/
+example : (run (init .poller) (mutPrefix ++ [.lAcq, .tlwOther, .lRel, .hsetWnoResume, .lAcq])).any
+    (fun s => s.lpc.inTimer && (step s .tlwOther).isSome && (step s .lRel).isSome && s.tl == .pos) = true := by
+  decide
+
+/-- ... and so are the steps of a firer, at every program point of the handler -/
+example : (run (init .fallback) mutPrefix).any
+    (fun s => s.lpc.inTimer && (run s mutFire).any (fun s' => s'.lpc.inTimer && s'.tl == .zero && s.tl == .neg))
+      = true := by decide
+
+/-- `zero_stays_zero`, `never_blocks_until_dispatch`, `rtl_positive_never_blocks_with_queued`: the hypotheses
+    hold after that `fire()`, and the loop-only run to the next dispatch exists (with a next generate_events
+    whose initial time left is positive: `checked` is false there) -/
+example : (run (init .fallback) (mutPrefix ++ mutFire)).any
+    (fun s => s.lpc.inTimer && s.cs.isNone && !s.q.pending.isEmpty && !s.blocked && s.tl == .zero &&
+      (run s exAfterFire).any (fun s' => s'.lpc == .pops && s'.tl == .pos) &&
+      (run s (exAfterFire.take 9)).any (fun s' => s'.lpc == .done && s'.tl == .zero) &&
+      exAfterFire.all (fun l => !l.isFirer && !l.isPop) && (exAfterFire.take 9).all (fun l => !l.isAppGe))
+      = true := by decide
+
+/-- `no_stuck_state`: each conjunct alone is reachable (blocked with an event queued and the signal unset,
+    the firer still inside: first example of this section; here: blocked, firer gone, nothing queued) -/
+example : (run (init .fallback) (mutPrefix ++ [.lAcq, .tlwOther, .lRel] ++ mutRest.drop 3)).any
+    (fun s => s.blocked && s.q.pending.isEmpty && s.cs.isNone && s.sig == 0 && s.tmo == .pos) = true := by decide
+
+/-- the positive branch end to end: Timer lowers to T, waiter waits for T, a firer wakes it, 0 is read -/
+example : (run (init .poller) (mutPrefix ++ [.lAcq, .tlwOther, .lRel, .hsetW, .tlr .pos] ++
+    [.fAcq 1, .fHr 1 .ge, .fIncr 1, .fApp 1 0, .fTlwZero 1, .fHsetR 1 true, .fSig 1, .fRel 1,
+     .selRet true, .pipeRd])).any
+    (fun s => s.lpc == .done && s.sig == 0 && s.tl == .zero) = true := by decide
 
 end CV.C03
